@@ -45,6 +45,88 @@ CHECKS = {
         "basins with equal priority key are oracles; remote basins not modelled (C14/C19).",
    technique="Coq proofs (list/index-map algebra, induction over export chains and store_basin histories) + vm_compute correspondence",
    design="5/C07"),
+ "C01": dict(
+   text="Machine-checked proof (Coq 8.16.1) about a Gallina model of RTDCWriter (store_feature dispatch, uint casts, "
+        "write_ndarray 1-d and n-d with resize + chunk loop + remainder, write_ragged with its per-writer size cache, "
+        "write_text with the width frozen at creation, store_table, rectify_metadata, replace/reset/append modes, "
+        "re-open points, CHUNK_SIZE_BYTES changes) and the readers: for all operation histories the data read back "
+        "are the concatenation of what was written since the last replace/reset (n-d, mask, trace, contour, table), "
+        "index enumerates 1..N, the event count matches; the two known defects are stated as _refuted/_partial pairs. "
+        "Tied to the code by vm_compute correspondence against raw h5py and an in-memory record oracle through dclab.",
+   note="Trusted: Coq kernel+vm_compute; hand-written model tied by differential testing; HDF5 storage/compression/"
+        "fletcher32, version branding, metadata converters (oracle only). Known findings: C01-log-truncated, C01-dtype-frozen.",
+   technique="Coq induction over write histories (append/chunk-loop algebra) + vm_compute correspondence + in-memory record oracle",
+   design="5/C01"),
+ "C02": dict(
+   text="Machine-checked proof (Coq 8.16.1) about a Gallina model of Export.hdf5/tsv selection logic and both routes of "
+        "yield_filtered_array_stacks: for every chunk size > 0, data and index list the concatenated stacks are "
+        "data[indices] (order kept, nothing dropped or duplicated, no empty or over-long stack); np.where selects "
+        "exactly the True positions; truncation to the shortest feature; sorted(set(features)); store_filtered_feature "
+        "and the whole export store exactly the selected events per feature kind with index re-enumerated and the "
+        "right event count. Tied to the code by vm_compute correspondence over dict/hdf5/hierarchy/tdms sources.",
+   note="Trusted: Coq kernel+vm_compute; model tied by differential testing; the writer (C01) and HDF5 storage; run "
+        "identifier suffix only shape-checked. Known findings: C02-nonsliceable-source, C02-short-features-indexerror, "
+        "C02-uint-cast-negative.",
+   technique="Coq proofs of chunk/stack/selection algebra for all chunk sizes and index lists + vm_compute correspondence",
+   design="5/C02"),
+ "C04": dict(
+   text="Machine-checked proof (Coq 8.16.1) over all histories of a Gallina model of the (repaired) hierarchy code "
+        "(apply_filter order, _check_parent_filter, HierarchyFilter with its root-id snapshot, retrieve/apply manual "
+        "indices, the four mapper functions, set_temporary_feature, ChildScalar snapshots, box ranges with cache): "
+        "after rejuvenate every child is the parent's view (lengths and columns) at any depth; manual exclusions "
+        "persist for the same root events across arbitrary ancestor edits incl. hidden-and-back; non-scalar view; "
+        "mapper inverses and composition. Tied by vm_compute correspondence and a root-index-set oracle.",
+   note="Trusted: Coq kernel+vm_compute; model tied by differential testing; md5 as equality of the hashed content; "
+        "polygon filters/limit events are C03's; mask/contour/trace/computed features oracle only; re-included events "
+        "are don't-care (documented all-True quirk).",
+   technique="Coq proofs over all edit/refresh histories (child-is-view, exclusion persistence) + vm_compute correspondence",
+   design="5/C04"),
+ "C08": dict(
+   text="Machine-checked proof (Coq 8.16.1) about a Gallina model of h5ds_copy/rtdc_copy/basin_definition_copy and the "
+        "compress/repack/condense wrappers over abstract layouts: the chunk iteration covers every index exactly once "
+        "for every rank/shape/chunk shape; copies preserve values, attributes, logs (string conversion lossless), "
+        "tables with attributes, internal basin data and metadata; the copy is idempotent and its output a fixed "
+        "point; condense's feature set and scalar equality. Tied by vm_compute correspondence on 13 storage layouts "
+        "written with raw h5py, sha256 of inputs, and the tasks applied to their own output; tdms2rtdc vs the tdms reader.",
+   note="Trusted: Coq kernel+vm_compute; HDF5 filter pipeline and h5o.copy (bytes preserved); RTDCWriter; tdms reader; "
+        "DEFECTIVE_FEATURES predicates evaluated by the real functions. Known findings: C08-condense-empty, "
+        "C08-tdms-negative-flmax.",
+   technique="Coq proofs (chunk cover for all shapes, copy preservation/idempotence) + vm_compute correspondence",
+   design="5/C08"),
+ "C09": dict(
+   text="Machine-checked proof (Coq 8.16.1) about Gallina models of dclab-split and dclab-join incl. Python's "
+        "iterate-while-mutating semantics (Common/PyList.v): split partitions the events for every N and k > 0; join "
+        "processes the inputs in a stable sort by (acquisition time, run index), exports the common features, "
+        "concatenates every column with time/frame/index_online offsets and a fresh index, keeps all logs, never "
+        "raises on well-formed inputs; join(split(ds,k)) reproduces the data; the old string sort key and the old "
+        "pruning loop are refuted by witnesses. Tied by vm_compute correspondence on generated files and a numpy oracle.",
+   note="Trusted: Coq kernel+vm_compute; model tied by differential testing; mktime time zone (TZ=UTC); values are "
+        "multiples of 1/8; availability of computable features is an input. Known finding: C09-split-empty-part.",
+   technique="Coq proofs (partition, stable sort, column concatenation, PyList semantics) + vm_compute correspondence",
+   design="5/C09"),
+ "C18": dict(
+   text="Machine-checked proofs (Coq 8.16.1, exact Z/Q arithmetic) about Gallina models of remove_duplicates, "
+        "cont_moments_cv, vol_revolve/get_volume, the brightness functions, crosstalk compensation and the marching-"
+        "squares core: translation invariance and axis-swap reciprocity of moments/inertia ratios, cubic scaling / "
+        "sign flip / translation invariance of the volume, one-to-one offset shifts of brightness, the compensation "
+        "matrix inverts the spill matrix, a complete marching-squares case-table sweep and edge consistency for every "
+        "image. Refill-reproduces-mask, rotation invariance and volume convergence are oracle runs only (partial).",
+   note="Trusted: Coq kernel+vm_compute; models tied by differential testing incl. the de-cythonised .pyx source; "
+        "binary64 rounding (1e-9 relative tolerance); the global contour/mask statement, rotation invariance and "
+        "convergence to analytic volumes are NOT proved (oracle runs with stated tolerances).",
+   technique="Coq exact-arithmetic proofs (ring/field identities, finite case sweep) + vm_compute correspondence + oracle runs",
+   design="5/C18"),
+ "C20": dict(
+   text="Machine-checked proof (Coq 8.16.1) about a Gallina model of the min/max/mean bookkeeping (write_ndarray's "
+        "incremental update with the non-NaN weighting, rtdc_copy's completion, the reader's preference for stored "
+        "attributes, deletion of any subset of attributes): for all write histories, batch partitions and NaN/inf "
+        "placements the reported min, max and exact mean equal nanmin, nanmax and nanmean of the values written "
+        "since the last replace/reset; the old size-weighted mean is refuted by a witness. Tied by vm_compute "
+        "correspondence and a numpy nan* oracle over writer, join, compress, repack, condense, export, hierarchy.",
+   note="Trusted: Coq kernel+vm_compute; model tied by differential testing; rounding of the weighted mean not "
+        "modelled (1e-9 relative tolerance; 1e-5 for float32 ancillary features).",
+   technique="Coq induction over write histories with exact rational means + vm_compute correspondence + numpy oracle",
+   design="5/C20"),
 }
 
 def main():
